@@ -45,32 +45,21 @@ Theorem claimed_once : forall a e1 b e2 c s t1 t2 r,
 Proof. exact M5fullDrain.claimed_once. Qed.
 Print Assumptions claimed_once.
 
-(** The snapshot of a Drain: every request of it is claimed on t and not ended
-    ([open_in]); and, when the snapshot lists no request twice, it is exactly
-    that set.  (The acceptor compares lengths and membership only; without
-    NoDup the converse fails: [c03_snapshot_dup_refuted].) *)
-Theorem c03_snapshot_is_inflight_partial : forall pre e post s t rs,
+(** The snapshot of a Drain lists no request twice and is exactly the set of the requests
+    claimed on t and not ended ([open_in]) at that moment. *)
+Theorem c03_snapshot_is_inflight : forall pre e post s t rs,
   run step init (pre ++ e :: post) = Some s -> e_k e = KDrainSnapshot t rs ->
-  (forall r, In r (map fst rs) -> open_in pre t r) /\
-  (NoDup (map fst rs) -> forall r, open_in pre t r -> In r (map fst rs)).
+  NoDup (map fst rs) /\ forall r, In r (map fst rs) <-> open_in pre t r.
 Proof. exact c03_snapshot_lem. Qed.
-Print Assumptions c03_snapshot_is_inflight_partial.
+Print Assumptions c03_snapshot_is_inflight.
 
-Theorem c03_snapshot_dup_refuted :
-  exists pre e t rs r, accepted (pre ++ [e]) = true /\ e_k e = KDrainSnapshot t rs /\
-    open_in pre t r /\ ~ In r (map fst rs).
-Proof.
-  exists ex_dup_pre, ex_dup_ev, 1, [(1, false); (1, false)], 3. split; [vm_compute; reflexivity|].
-  split; [reflexivity|]. split.
-  - exists (deploy0 ++ req_hang_on 1 1 20 ++ req_hang_on 2 0 21 ++ req_picked 3 22 ++ [ev 22 (AReq 3) (KLbClaim 0 (Some 1) 3)]),
-           (ev 22 (AReq 3) (KClaim 1 3)),
-           [ev 22 (AReq 3) (KAtTarget 1 3); ev 40 (AGo 1) (KStateSet 1 THealthy TDraining);
-            ev 40 (AGo 1) (KDrainBegin 1 THealthy 100)].
-    split; [reflexivity|split; [reflexivity|]].
-    intros e' [<-|[<-|[<-|[]]]]; discriminate.
-  - cbn. intuition discriminate.
-Qed.
-Print Assumptions c03_snapshot_dup_refuted.
+(** a snapshot that lists a request twice (and so misses another one in flight) is not a
+    behaviour of the model: the two hand-written traces are rejected at that event *)
+Theorem c03_snapshot_dup_rejected :
+  accepted ex_dup_pre = true /\ accepted (ex_dup_pre ++ [ex_dup_ev]) = false /\
+  accepted ex_dup_up_pre = true /\ accepted (ex_dup_up_pre ++ [ex_dup_ev]) = false.
+Proof. repeat split; vm_compute; reflexivity. Qed.
+Print Assumptions c03_snapshot_dup_rejected.
 
 (** When a Drain call ends — the state-set by the goroutine that has the open
     drain on t — "cancel the rest" has been done, and every request of that
@@ -111,30 +100,17 @@ Print Assumptions c03_grace.
 
 (** Upgraded connections are closed as soon as draining begins: at every accepted snapshot
     the flag of an entry says exactly "the target answered 101"; every flagged entry has phase
-    [PReplied t 101] and is cancelled in the resulting state; and, when the snapshot lists no
-    request twice, every request in flight on t with phase [PReplied t 101] is a flagged entry
-    and is cancelled in the resulting state.  (NoDup is needed as for
-    [c03_snapshot_is_inflight_partial]: [c03_upgraded_cut_dup_refuted].) *)
-Theorem c03_upgraded_cut_when_draining_begins_partial : forall pre e post s t rs,
+    [PReplied t 101] and is cancelled in the resulting state; and every request in flight on t
+    with phase [PReplied t 101] is a flagged entry and is cancelled in the resulting state. *)
+Theorem c03_upgraded_cut_when_draining_begins : forall pre e post s t rs,
   run step init (pre ++ e :: post) = Some s -> e_k e = KDrainSnapshot t rs ->
   exists s1 s2 x, run step init pre = Some s1 /\ step s1 e = Some s2 /\ nget (targets s1) t = Some x /\
     (forall r h, In (r, h) rs -> (h = true <-> exists t', phase_of s1 r = Some (PReplied t' 101%N))) /\
     (forall r, In (r, true) rs -> cancelled s2 r = true /\ phase_of s1 r = Some (PReplied t 101%N)) /\
-    (NoDup (map fst rs) -> forall r, In r (t_inflight x) -> phase_of s1 r = Some (PReplied t 101%N) ->
+    (forall r, In r (t_inflight x) -> phase_of s1 r = Some (PReplied t 101%N) ->
        In (r, true) rs /\ cancelled s2 r = true).
 Proof. exact c03_upgraded_lem. Qed.
-Print Assumptions c03_upgraded_cut_when_draining_begins_partial.
-
-Theorem c03_upgraded_cut_dup_refuted :
-  exists pre e t rs r s1 s2 x, run step init pre = Some s1 /\ step s1 e = Some s2 /\
-    e_k e = KDrainSnapshot t rs /\ nget (targets s1) t = Some x /\ In r (t_inflight x) /\
-    phase_of s1 r = Some (PReplied t 101%N) /\ cancelled s2 r = false.
-Proof.
-  exists ex_dup_up_pre, ex_dup_ev, 1, [(1, false); (1, false)], 3. eexists. eexists. eexists.
-  split; [vm_compute; reflexivity|]. split; [vm_compute; reflexivity|]. split; [reflexivity|].
-  split; [reflexivity|]. split; [cbn; auto|]. split; reflexivity.
-Qed.
-Print Assumptions c03_upgraded_cut_dup_refuted.
+Print Assumptions c03_upgraded_cut_when_draining_begins.
 
 (** Only upgraded connections are cut early: a request that a snapshot event cancels has phase
     [PReplied t 101] — so, with [c03_grace], a request that is not an upgraded connection is
